@@ -764,7 +764,10 @@ func c02wRunHistory(rep *kit.Report, parent string, c c02wCase, fullFrom int, st
 	c.Knobs.apply()
 	c02wInstallTap()
 	lastNames := ""
-	staleWal := ""     // WAL files seen while the memtable was empty (see fail)
+	staleWal := ""         // WAL files seen while the memtable was empty (see fail)
+	staleReplayed := false // a reopen happened while such a file existed
+	// the step under way is a reopen that replays >= 2 write batches acknowledged after a flush
+	flushedOnce, unflushedWrites, walOrderStep := false, 0, false
 	mergeSelf := false // the step under way is MS
 	splitPath := false // the step under way is a streaming compaction that has to split a chunk (see c02wLayout.SeriesSegs)
 	fail := func(n int, kind, detail string) c02wEnd {
@@ -772,7 +775,7 @@ func c02wRunHistory(rep *kit.Report, parent string, c c02wCase, fullFrom int, st
 		// defect families with kinds of their own (the symptom goes to the detail)
 		switch {
 		case !strings.HasPrefix(kind, "wide_"):
-		case staleWal != "":
+		case staleWal != "" && staleReplayed:
 			// a WAL file that a completed flush should have removed is still there (WAL.Switch can return before the
 			// writer of the last partition has handed over its file names: a race, so not reproducible at will); its rows
 			// are replayed by the next open as if they were the newest writes
@@ -782,6 +785,9 @@ func c02wRunHistory(rep *kit.Report, parent string, c c02wCase, fullFrom int, st
 			// the split-chunk path of StreamIterators.compactColumn (a series with more segments than a chunk may hold)
 			detail = "symptom " + kind + ": " + detail
 			kind = "wide_stream_split_chunk"
+		case walOrderStep && kind == "wide_wrong_value":
+			// the known WAL partition-order defect of C01 seen through a clean reopen (see c02RunHistory)
+			kind = "wide_reopen_replays_unflushed_writes_in_wrong_order"
 		case mergeSelf && kind == "wide_wrong_value":
 			// MergeSelf appends the chunks of a series in the order of their first timestamps, not of their files
 			detail = "symptom " + kind + ": " + detail
@@ -815,6 +821,19 @@ func c02wRunHistory(rep *kit.Report, parent string, c c02wCase, fullFrom int, st
 		c02wTap.take()
 		lastNames = prev.Names
 		mergeSelf = op == "MS"
+		switch {
+		case op == "F":
+			flushedOnce, unflushedWrites = true, 0
+		case c02wWriteIndex(op) >= 0:
+			unflushedWrites++
+		}
+		walOrderStep = op == "RO" && flushedOnce && unflushedWrites >= 2
+		if op == "RO" {
+			unflushedWrites = 0
+		}
+		if op == "RO" && staleWal != "" {
+			staleReplayed = true
+		}
 		splitPath = (op == "LC" || op == "FC") && c.Knobs.Stream == 1 && c.Knobs.SegLimit > 0 && prev.SeriesSegs > c.Knobs.SegLimit
 		if err := c02wApply(v, m, op, i+1); err != nil {
 			return fail(i+1, "wide_op_error", fmt.Sprintf("op %s failed: %v", op, err))
@@ -953,27 +972,32 @@ func c02wExplore(rep *kit.Report, scratch string, p c02wPlan) {
 		if c02wTrace {
 			fmt.Fprintf(os.Stderr, "C02W-RUN %s\n", c.key(len(c.Ops)))
 		}
-		e := c02wRunHistory(rep, dir, c, from, check)
-		if e.vio != nil {
-			// determinism: the failing history is run again, compared in full at every letter
-			e2 := c02wRunHistory(rep, dir, e.vio.replay, 0, false)
-			switch {
-			case e.vio.kind == "wide_stale_wal_replay":
-				// the cause is a race of the product (see c02wRunHistory): reported as observed, the second run is no criterion
-				rep.Violation(e.vio.kind, e.vio.key, e.vio.detail, e.vio.replay)
-			case e2.vio != nil && e2.vio.kind == e.vio.kind:
-				rep.Violation(e.vio.kind, e.vio.key, e.vio.detail, e.vio.replay)
-			case e.vio.kind == "wide_stream_split_chunk":
-				// that path's outcome depends on the state a pooled iterator was left in by earlier compactions
-				rep.Violation(e.vio.kind, e.vio.key, "(not reproduced by an immediate second run) "+e.vio.detail, e.vio.replay)
-			default:
-				second := "no violation"
-				if e2.vio != nil {
-					second = e2.vio.kind + " at " + e2.vio.key + ": " + e2.vio.detail
-				}
-				rep.Violation("wide_not_reproducible", e.vio.key, "second run: "+second+" ||| first run: "+e.vio.kind+": "+e.vio.detail, e.vio.replay)
+		// kit.RunConfirmed: a history that reports a violation is executed a second time from scratch and only what both
+		// executions report is kept (a failure that does not repeat is counted, never a verdict)
+		var e, first c02wEnd
+		var stale *c02wViolation
+		rep.RunConfirmed(func() {
+			e = c02wRunHistory(rep, dir, c, from, check)
+			if e.vio == nil {
+				return
 			}
+			if first.vio == nil {
+				first = e
+			}
+			if e.vio.kind == "wide_stale_wal_replay" {
+				// the cause is a race of the product (see c02wRunHistory), so a second execution is no criterion: reported
+				// as observed, outside the confirmation
+				stale = e.vio
+				return
+			}
+			rep.Violation(e.vio.kind, e.vio.key, e.vio.detail, e.vio.replay)
+		})
+		if stale != nil {
+			rep.Violation(stale.kind, stale.key, stale.detail, stale.replay)
+		}
+		if first.vio != nil {
 			rep.Count("wide_failed_histories", 1)
+			e = first // nothing is explored below a history that failed once
 		}
 		return e
 	}
@@ -1154,9 +1178,11 @@ func c02WideStage(rep *kit.Report, scratch string) {
 			rep.Count("wide_volume_cases", 1)
 			rep.Eval(1)
 			rep.DistinctNontrivial(kit.Hash("wide-volume", w))
-			if vio := c02WideVolume(scratch, w); vio != nil {
-				rep.Violation(vio.kind, vio.key, vio.detail, vio.replay)
-			}
+			rep.RunConfirmed(func() {
+				if vio := c02WideVolume(scratch, w); vio != nil {
+					rep.Violation(vio.kind, vio.key, vio.detail, vio.replay)
+				}
+			})
 		}
 	}
 	for _, p := range c02wPlans(kit.Thorough()) {
